@@ -44,6 +44,7 @@ type Scenario struct {
 	Perturb      float64  `json:"perturb"`
 	Script       []string `json:"script,omitempty"`
 	Name         string   `json:"name,omitempty"`
+	Kind         string   `json:"kind,omitempty"` // "batch" (default) | "simple" (SimpleSpanProcessor)
 	Seed         int64    `json:"seed"`
 }
 
@@ -124,10 +125,23 @@ func runScenario(scn int, sc Scenario, tw *vh.TraceWriter, res *vh.Result) {
 	if sc.Blocking {
 		opts = append(opts, sdktrace.WithBlocking())
 	}
-	tw.Emit(map[string]any{"ev": "Cfg", "sc": scn, "qcap": sc.QCap, "maxbatch": sc.MaxBatch, "blocking": sc.Blocking,
-		"name": sc.Name})
+	kind := sc.Kind
+	if kind == "" {
+		kind = "batch"
+	}
+	maxbatch := sc.MaxBatch
+	if kind == "simple" {
+		maxbatch = 1
+	}
+	tw.Emit(map[string]any{"ev": "Cfg", "sc": scn, "qcap": sc.QCap, "maxbatch": maxbatch, "blocking": sc.Blocking,
+		"name": sc.Name, "kind": kind})
 
-	bsp := sdktrace.NewBatchSpanProcessor(exp, opts...)
+	var bsp sdktrace.SpanProcessor
+	if kind == "simple" {
+		bsp = sdktrace.NewSimpleSpanProcessor(exp)
+	} else {
+		bsp = sdktrace.NewBatchSpanProcessor(exp, opts...)
+	}
 	tp := sdktrace.NewTracerProvider(sdktrace.WithSpanProcessor(bsp), sdktrace.WithSampler(sdktrace.AlwaysSample()))
 	tracer := tp.Tracer("c01")
 
@@ -301,6 +315,9 @@ func randomScenario(r *rand.Rand) Scenario {
 	}
 	if r.Intn(2) == 0 {
 		sc.ExpMode = "mixed"
+	}
+	if r.Intn(6) == 0 {
+		sc.Kind = "simple"
 	}
 	return sc
 }
